@@ -40,6 +40,8 @@ func init() {
 }
 
 func runC24(c *core.Ctx) {
+	c.Rule("FLOATEXACT", "datasources parse floats exactly")
+	checkExactFloatParsing(c, "FLOATEXACT")
 	c.Rule("CELL", "csv: stored value admitted by the column type, or an error")
 	c.Rule("ARM", "json: ok=true only with a value of the asked type")
 	c.Rule("OKUSE", "json: ok is not discarded; !ok becomes an error")
